@@ -12,6 +12,7 @@ import ast
 from ..cfg import cfg_of
 from ..core import AnalysisError
 from ..facts import loc
+from ..pathrules import assigns_attr as assigns_attr_
 from ..pathrules import (calls_named, head_test_bounds, lexically_inside_with, loop_heads,
                          once_per_iteration, variant)
 from ..src import Repo, call_name, names_in, receiver, walk_no_nested
@@ -96,43 +97,7 @@ def retry_loop_rules(ctx, repo, fi, rule, sender_recv, var="retry_count"):
     return g, h, req
 
 
-def check(ctx):
-    repo = Repo()
-    ctx.rule("R1", "GeckoAsyncUdpProtocol.get: loop bounded by retry_count (strict decrement on every cycle), request built fresh inside the loop, exactly one send per attempt, handler returned only on the wait_for_response-true edge, None on exhaustion, default bound = GeckoConfig.PROTOCOL_RETRY_COUNT")
-    ctx.rule("R2", "lock discipline: every wait_for_response site and every request send of the async stack is lexically inside `async with <protocol>.Lock`; DbgLock delegates to asyncio.Lock on every path")
-    ctx.rule("R3", "who may send: transport.sendto only in queue_send; queue_send in the async stack only inside the lock or at the two tabled exemptions")
-    ctx.rule("R4", "gates: every GeckoAsyncSpa method that issues a command/query has is_connected and is_responding_to_pings as guards of the send (exempt: _connect, _ping_loop)")
-    ctx.rule("R5", "wait_for_response: requires a positive timeout, yields every iteration; every request builder passes a timeout")
-
-    # ---- R1 ---------------------------------------------------------------
-    get = repo.own_method(PROTO, "get")
-    r = retry_loop_rules(ctx, repo, get, "R1", "self")
-    if r:
-        g, h, req = r
-        for n in g.stmt_nodes():
-            if isinstance(n.ast, ast.Return):
-                v = n.ast.value
-                if v is None or (isinstance(v, ast.Constant) and v.value is None):
-                    facts = g.guard_atoms(n)
-                    ok = ("retry_count <= 0", True) in facts or n not in g.loop_body(h)
-                    ctx.ob("R1", f"{get.qual}::none-only-after-loop", ok, f"{get.qual}: reports failure (L{n.lineno}) before the retry budget is used", loc(get, n.ast))
-                else:
-                    facts = g.iter_guard_atoms(n)
-                    okw = any(p and "wait_for_response(" in t for t, p in facts)
-                    ctx.ob("R1", f"{get.qual}::reply-only-if-delivered", okw and ast.unparse(v) == req,
-                           f"{get.qual}: returns `{ast.unparse(v)}` (L{n.lineno}) on a path where no reply was delivered for this request; guards {sorted(facts)}",
-                           loc(get, n.ast), sample={"rule": "R1", "return": ast.unparse(n.ast), "guards": sorted(map(str, facts))})
-        # falls off the end -> None: acceptable only if annotated Optional; treat exit preds
-        d = None
-        a = get.node.args
-        names = [x.arg for x in a.args]
-        if "retry_count" in names:
-            i = names.index("retry_count") - (len(names) - len(a.defaults))
-            if i >= 0:
-                d = ast.unparse(a.defaults[i])
-        ctx.ob("R1", f"{get.qual}::default-bound", d is not None and d.endswith("PROTOCOL_RETRY_COUNT"),
-               f"{get.qual}: default retry_count is `{d}`, not GeckoConfig.PROTOCOL_RETRY_COUNT", get.loc)
-
+def fresh_request_factories(ctx, repo):
     # every create_func handed to the request engines really BUILDS the request when called
     # (a lambda returning a pre-built object re-sends a stale handler: expired timeout clock,
     # same sequence number on every retry)
@@ -174,6 +139,47 @@ def check(ctx):
                    f"{fi2.qual}: the factory handed to {r}.get (`{what}`) does not construct a new request on each call: retries re-send one stale handler "
                    f"(its timeout clock started at construction, its sequence number is reused)", loc(fi2, n))
     ctx.floor("R1", "create_func arguments", n_cf, 9)
+
+
+
+def check(ctx):
+    repo = Repo()
+    ctx.rule("R1", "GeckoAsyncUdpProtocol.get: loop bounded by retry_count (strict decrement on every cycle), request built fresh inside the loop, exactly one send per attempt, handler returned only on the wait_for_response-true edge, None on exhaustion, default bound = GeckoConfig.PROTOCOL_RETRY_COUNT")
+    ctx.rule("R2", "lock discipline: every wait_for_response site and every request send of the async stack is lexically inside `async with <protocol>.Lock`; DbgLock delegates to asyncio.Lock on every path")
+    ctx.rule("R3", "who may send: transport.sendto only in queue_send; queue_send in the async stack only inside the lock or at the two tabled exemptions")
+    ctx.rule("R4", "gates: every GeckoAsyncSpa method that issues a command/query has is_connected and is_responding_to_pings as guards of the send (exempt: _connect, _ping_loop)")
+    ctx.rule("R5", "wait_for_response: requires a positive timeout, yields every iteration; every request builder passes a timeout")
+
+    # ---- R1 ---------------------------------------------------------------
+    get = repo.own_method(PROTO, "get")
+    r = retry_loop_rules(ctx, repo, get, "R1", "self")
+    if r:
+        g, h, req = r
+        for n in g.stmt_nodes():
+            if isinstance(n.ast, ast.Return):
+                v = n.ast.value
+                if v is None or (isinstance(v, ast.Constant) and v.value is None):
+                    facts = g.guard_atoms(n)
+                    ok = ("retry_count <= 0", True) in facts or n not in g.loop_body(h)
+                    ctx.ob("R1", f"{get.qual}::none-only-after-loop", ok, f"{get.qual}: reports failure (L{n.lineno}) before the retry budget is used", loc(get, n.ast))
+                else:
+                    facts = g.iter_guard_atoms(n)
+                    okw = any(p and "wait_for_response(" in t for t, p in facts)
+                    ctx.ob("R1", f"{get.qual}::reply-only-if-delivered", okw and ast.unparse(v) == req,
+                           f"{get.qual}: returns `{ast.unparse(v)}` (L{n.lineno}) on a path where no reply was delivered for this request; guards {sorted(facts)}",
+                           loc(get, n.ast), sample={"rule": "R1", "return": ast.unparse(n.ast), "guards": sorted(map(str, facts))})
+        # falls off the end -> None: acceptable only if annotated Optional; treat exit preds
+        d = None
+        a = get.node.args
+        names = [x.arg for x in a.args]
+        if "retry_count" in names:
+            i = names.index("retry_count") - (len(names) - len(a.defaults))
+            if i >= 0:
+                d = ast.unparse(a.defaults[i])
+        ctx.ob("R1", f"{get.qual}::default-bound", d is not None and d.endswith("PROTOCOL_RETRY_COUNT"),
+               f"{get.qual}: default retry_count is `{d}`, not GeckoConfig.PROTOCOL_RETRY_COUNT", get.loc)
+
+    fresh_request_factories(ctx, repo)
 
     # ---- R2 lock ------------------------------------------------------------
     nw = 0
@@ -291,6 +297,36 @@ def check(ctx):
            "is_responding_to_pings no longer compares the age of the last ping with the ping frequency", irp.loc)
     ic = repo.own_method("GeckoAsyncSpa", "is_connected")
     ctx.ob("R4", "is_connected::reads-flag", "self._is_connected" in ast.unparse(ic.node), "is_connected does not read the connected flag", ic.loc)
+
+    # ---- R4 (evidence): what opens the ping gate --------------------------------------------------------------
+    # the attribute is_responding_to_pings is computed from may be advanced inside the ping loop only on the path where a
+    # ping reply was actually received (the result of protocol.get is not None); any other write re-opens the gate
+    # for commands although the spa is silent
+    irp = repo.own_method("GeckoAsyncSpa", "is_responding_to_pings")
+    ev_attrs = sorted({n.attr for n in ast.walk(irp.node) if isinstance(n, ast.Attribute) and isinstance(n.value, ast.Name) and n.value.id == "self" and n.attr not in ("_protocol",)
+                       and not isinstance(getattr(repo.cls("GeckoAsyncSpa").methods.get(n.attr), "node", None), (ast.FunctionDef, ast.AsyncFunctionDef))})
+    if len(ev_attrs) != 1:
+        ctx.error(f"{irp.qual}: ping evidence attribute not identified by role ({ev_attrs})")
+    else:
+        ev = ev_attrs[0]
+        n_w = 0
+        for fi2 in repo.cls("GeckoAsyncSpa").methods.values():
+            g2 = cfg_of(fi2)
+            for n2 in g2.stmt_nodes():
+                if not assigns_attr_(n2, f"self.{ev}"):
+                    continue
+                if isinstance(n2.ast, (ast.Assign, ast.AnnAssign)) and isinstance(n2.ast.value, ast.Constant) and n2.ast.value.value is None:
+                    continue
+                n_w += 1
+                lp2 = g2.loop_of(n2)
+                if lp2 is None:
+                    continue  # the stamp taken once when the loop starts (the handshake just succeeded)
+                facts2 = g2.guard_atoms(n2)
+                got_reply = any((not p_) and t_.endswith(" is None") and any(isinstance(d_, ast.Await) or "protocol.get" in ast.unparse(d_) for d_ in [g2.single_defs().get(t_[:-8], (None, ast.Constant(value=0)))[1]]) for t_, p_ in facts2)
+                ctx.ob("R4", f"{fi2.qual}::{ev}::advanced-only-on-reply", got_reply,
+                       f"{fi2.qual}: `self.{ev}` (the evidence is_responding_to_pings is computed from) is advanced at L{n2.lineno} on a path where no ping reply was received (guards {sorted(facts2)}): "
+                       f"the gate re-opens and commands/queries are sent to a spa that is not answering", loc(fi2, n2.ast))
+        ctx.floor("R4", "writes of the ping evidence", n_w, 2)
 
     # ---- R5 -------------------------------------------------------------------
     w = repo.own_method(BASE, "wait_for_response")
